@@ -22,7 +22,9 @@ NRows(X) == IF X.cls = "tangent" THEN 2 ELSE Len(X.rows)
 Patterns(k) == {[i \in 1..k |-> Factors[f]] : f \in 1..Len(Factors)}
                \cup {[i \in 1..k |-> Factors[((i + s) % Len(Factors)) + 1]] : s \in 0..(Len(Factors) - 1)}
 
-Scalable == {X \in Objects : X.cls \notin {"isometry", "hyperplane", "subspace"}}
+\* a hyperplane is given by the homogeneous coordinates of its normal (a point of the dual projective space): rescaling
+\* them changes neither the hyperplane nor the reflection across it
+Scalable == {X \in Objects : X.cls \notin {"isometry", "subspace"}}
 
 RInit == /\ Init
          /\ obj \in Scalable
@@ -53,6 +55,9 @@ CoshInvariant ==
         IN R(MDot(x, y) * MDot(x, y), MNorm(x) * MNorm(y)) = R(MDot(obj.rows[1], obj.rows[2]) * MDot(obj.rows[1], obj.rows[2]),
                                                                    MNorm(obj.rows[1]) * MNorm(obj.rows[2]))
 
+\* the reflection across a hyperplane does not depend on the representative of the normal
+ReflInvariant == obj.cls = "hyperplane" => \A f \in 1..Len(Factors) : Refl(VScale(Factors[f][1], obj.rows[1])) = Refl(obj.rows[1])
+
 \* ------------------------------------------------------------- observations
 SquarePt(x) == MNorm(x) < 0 /\ IsSquare(0 - MNorm(x))
 Along(X, p, q) == Act(X.frame, Pad(<<q, p>>))                \* point at distance t along the unit tangent, tanh t = p/q
@@ -66,6 +71,7 @@ Obs ==
          [coshsq |-> R(MDot(obj.rows[1], obj.rows[2]) * MDot(obj.rows[1], obj.rows[2]), MNorm(obj.rows[1]) * MNorm(obj.rows[2])),
           towards |-> IF obj.rows[1] = obj.rows[2] THEN <<>> ELSE Towards(obj.rows[1], obj.rows[2])]
     [] obj.cls = "tangent" -> [along |-> Along(obj, 3, 5), back |-> Along(obj, 0 - 3, 5), tanh |-> <<3, 5>>]
+    [] obj.cls = "hyperplane" -> [refl |-> Refl(obj.rows[1])]
     [] OTHER -> [none |-> TRUE]
 
 TowardsIsTangent == obj.cls = "pair" /\ MNorm(obj.rows[1]) < 0 /\ MNorm(obj.rows[2]) < 0 /\ obj.rows[1] # obj.rows[2] =>
